@@ -47,10 +47,19 @@ LANGS = ["Bash", "C", "Cpp", "CSharp", "Css", "Elixir", "Go", "Haskell", "Html",
 LANG_FUNCS = ["ast_grep_language::pre_process_pattern", "<ast_grep_language::SupportLang as Language>::pre_process_pattern / expando_char / extract_meta_var (all 23 built-in languages)",
               "ast_grep_core::meta_var::extract_meta_var"]
 LANG_ASSUME = "grammar (FFI) not executed: ast-grep-language is built without its generated C grammars (feature builtin-parser off); that a language's tokenizer keeps the pre-processed spelling as one leaf is outside the claim"
-H(prop="C20", name="c20_lang_pipeline_table", crate="lang-h", module="c20_lang_spelling", features=[], timeout=1800, mem_gb=20,
-  decides="for every built-in language L: L.extract_meta_var(L.pre_process_pattern(s)) == the language-independent meaning of the spelling s ($A named capture, $$A any-node capture, $_ / $_X / $$_ non-capturing, $$$ / $$$_ anonymous ellipsis, $$$A named ellipsis; lower-case, digit-first names and lone sigils are not holes)",
-  functions=LANG_FUNCS, assumes=[LANG_ASSUME], shape="STR",
-  bounds="language: symbolic index into SupportLang::all_langs() (23); spelling: each of 24 concrete spellings ($A $Z $$A $_ $$_ $$$ $$$A $$$_ $_X $$_X $$$_X $A_1 $ZA $$Z0 $a $1 $ $$ $$$$ $$$$A $Aa $$$a $A$B A) -- a symbolic spelling makes the element count of pre_process_pattern's Vec<char> symbolic and runs out of memory (lab: c20_lang_spelling_rust_len3, c20_lang_shape_rust_2_2); unwind 25")
+_DEC_LANG = ("L.extract_meta_var(L.pre_process_pattern(s)) == the language-independent meaning of the spelling s ($A named capture, $$A any-node capture, $_ / $_X / $$_ non-capturing, "
+             "$$$ / $$$_ anonymous ellipsis, $$$A named ellipsis; lower-case, digit-first names and lone sigils are not holes)")
+_NOTE_LANG = ("NOTE: language and spellings are concrete -- this harness is the real code executed by the model checker on concrete cases (one pipeline run costs ~16 s of symbolic execution); "
+              "symbolic spellings through pre_process_pattern do not finish (lab: c20_lang_spelling_rust_len3, c20_lang_shape_rust_2_2); the symbolic-input half of the claim is c20_metavar_spelling_* and c20_lang_expando_class")
+for _l, _cls in (("rust", "2-byte expando U+00B5; the shared pre_process_pattern"), ("c", "4-byte expando U+10000"), ("html", "ASCII expando z, own Language impl"),
+                 ("java", "no expando: sigil kept"), ("css", "U+00B5 since the fix of D11")):
+    H(prop="C20", name=f"c20_lang_pipeline_{_l}", crate="lang-h", module="c20_lang_spelling", features=[], timeout=1800, mem_gb=20,
+      decides=f"for L = {_l} ({_cls}): " + _DEC_LANG, functions=LANG_FUNCS, assumes=[LANG_ASSUME], shape="STR",
+      bounds="24 concrete spellings ($A $$A $_ $$_ $$$ $$$A | $$$_ $_X $$_X $$$_X $Z $A_1 | $a $1 $ $$ $$$$ $$$$A | $ZA $$Z0 $Aa $$$a $A$B A). " + _NOTE_LANG + "; unwind 25")
+for _i, _rng in enumerate(("Bash C Cpp CSharp Css Elixir", "Go Haskell Html Java JavaScript Json", "Kotlin Lua Php Python Ruby Rust", "Scala Swift Tsx TypeScript Yaml")):
+    H(prop="C20", name=f"c20_lang_named_spellings_l{_i}", crate="lang-h", module="c20_lang_spelling", features=[], timeout=3000, mem_gb=20, tier="thorough",
+      decides="for every built-in language L of the range: " + _DEC_LANG, functions=LANG_FUNCS, assumes=[LANG_ASSUME], shape="STR",
+      bounds=f"language: symbolic index into SupportLang::all_langs() restricted to positions {6 * _i}..{min(6 * _i + 6, 23)} ({_rng} at this commit), case-split per language; spellings: $A $$A $_ $$_ $$$ $$$A. " + _NOTE_LANG + "; unwind 25")
 for _nm, _b in (("c20_lang_spelling_rust_len3", "Rust, every spelling of exactly 3 bytes starting with $ over {$,A,Z,a,0,_}"),
                 ("c20_lang_shape_rust_2_2", "Rust, $$ followed by two symbolic name characters over {A,Z,a,0,_}")):
     H(prop="C20", name=_nm, crate="lang-h", module="c20_lang_spelling", features=[], tier="lab", timeout=1800, mem_gb=24,
@@ -60,7 +69,7 @@ H(prop="C20", name="c20_lang_expando_class", crate="lang-h", module="c20_lang_sp
   decides="for every built-in language: expando_char() is the sigil or a character that cannot occur in a meta-variable spelling ([A-Z_0-9])",
   functions=["<ast_grep_language::SupportLang as Language>::expando_char"], assumes=[LANG_ASSUME], shape="INT", bounds="symbolic index into SupportLang::all_langs() (23 languages)")
 for _nm, _e, _uw in (("mu", "U+00B5 (2 bytes: the expando of C#, CSS, Elixir, Go, Haskell, Kotlin, PHP, Python, Ruby, Rust, Swift)", 12),
-                     ("u10000", "U+10000 (4 bytes: the expando of C and C++)", 22)):
+                     ("u10000", "U+10000 (4 bytes: the expando of C and C++)", 22), ("z", "z (1 byte: the expando of HTML)", 7)):
     H(prop="C20", name=f"c20_metavar_spelling_expando_{_nm}_n5", crate="core-h", module="c20_metavar", timeout=1800, mem_gb=20,
       decides="extract_meta_var(s, expando) == specification table (with the expando in the role of the sigil), for every s",
       functions=["ast_grep_core::meta_var::extract_meta_var"],
@@ -139,17 +148,17 @@ H(prop="C16", name="c16_display_context_n9", crate="core-h", module="c16_positio
 # ---------------------------------------------------------------- C10
 for ln in range(5):
     H(prop="C10", name=f"c10_input_edit_exact_len{ln}", crate="core-h", module="c10_edit", mem_gb=20, timeout=3600, tier="quick" if ln <= 2 else "thorough",
-      decides="AstGrep::edit: new text == splice; the old tree receives exactly one Tree::edit whose InputEdit (bytes and row/col points) describes the change exactly; re-parse is given the old tree",
+      decides="AstGrep::edit: new text == splice; the old tree receives exactly one Tree::edit whose InputEdit is a valid description of the change (text before start_byte and after old_end_byte / new_end_byte unchanged, equal tail lengths, the three row/col points are those of the three offsets); re-parse is given the old tree",
       functions=["ast_grep_core::node::Root::do_edit", "ast_grep_core::source::perform_edit",
                  "ast_grep_core::source::<String as Content>::accept_edit", "ast_grep_core::source::position_for_offset"],
-      assumes=[ST_TS, "tree-sitter contract: incremental parse == fresh parse iff the old tree was edited exactly once with an exact InputEdit"],
+      assumes=[ST_TS, "tree-sitter contract: incremental parse == fresh parse iff the old tree was edited exactly once with an InputEdit outside whose range the text is unchanged"],
       shape="STR", bounds=f"text length {ln}: every (position, deleted length, inserted length <= 2) size class enumerated concretely x symbolic contents over {{a,\\n}}/{{b,\\n}}; unwind 7")
 for ln in (1, 2):
     H(prop="C10", name=f"c10_input_edit_multibyte_len{ln}", crate="core-h", module="c10_edit", mem_gb=20, timeout=1800, tier="quick" if ln == 1 else "thorough", min_covers=1,  # the row witness is dead code in this mode
       decides="AstGrep::edit inserting the two-byte character U+00E9: new text == splice; exactly one Tree::edit whose InputEdit counts BYTES (new_end_byte = position + 2) and whose points are exact",
       functions=["ast_grep_core::node::Root::do_edit", "ast_grep_core::source::perform_edit",
                  "ast_grep_core::source::<String as Content>::accept_edit", "ast_grep_core::source::position_for_offset"],
-      assumes=[ST_TS, "tree-sitter contract: incremental parse == fresh parse iff the old tree was edited exactly once with an exact InputEdit"],
+      assumes=[ST_TS, "tree-sitter contract: incremental parse == fresh parse iff the old tree was edited exactly once with an InputEdit outside whose range the text is unchanged"],
       shape="STR", bounds=f"text length {ln} over {{a,\\n}} (symbolic contents), every (position, deleted length), inserted text = U+00E9 (2 bytes, concrete); unwind 7")
 
 # ---------------------------------------------------------------- small config kernels
@@ -166,6 +175,14 @@ for _v, _how in (("node", "bound to $A through MetaVarEnv::insert (text read fro
                  "ast_grep_config::transform::transformation::resolve_char",
                  "ast_grep_core::meta_var::MetaVarEnv::get_var_bytes"],
       shape="STR", bounds=f"captured text fixed: 'a e-acute euro U+1F600' (10 bytes, 4 characters), {_how}; startChar / endChar: absent or any i32; unwind 12")
+for _v, _how in (("transformed", "provided as an earlier transformation's output"), ("node", "bound to $A through MetaVarEnv::insert (text read from the document)")):
+    H(prop="C20", name=f"c20_substring_2ch_{_v}", crate="config-h", module="c20_substring", stubbing=True, tier="lab", also=["C11"],
+      assumes=[ST_TS, ST_MAP, ST_REGEX, ST_UTF8], timeout=1800, mem_gb=24,
+      decides="Substring::compute(s, startChar, endChar) == Python s[start:end] on characters (not bytes), and never panics",
+      functions=["ast_grep_config::transform::transformation::Substring::compute",
+                 "ast_grep_config::transform::transformation::resolve_char",
+                 "ast_grep_core::meta_var::MetaVarEnv::get_var_bytes"],
+      shape="STR", bounds=f"captured text fixed: 'a e-acute' (3 bytes, 2 characters), {_how}; startChar / endChar: absent or any i32; unwind 6")
 for _v in ("start", "end"):
     H(prop="C20", name=f"c20_substring_chars_{_v}_only", crate="config-h", module="c20_substring", stubbing=True, tier="lab",
       assumes=[ST_TS, ST_MAP, ST_REGEX, ST_UTF8], timeout=1800, mem_gb=24,
@@ -614,6 +631,28 @@ for sh in range(2, 9):
 # lab      = harnesses kept as the record of what was tried but which the engine does not
 #            decide on this machine (time-outs / out of memory, DESIGN 3).  They are run only
 #            with `--tier lab`; no registered command runs them, no claim rests on them.
+H(prop="C03", name="c03_hole_named_only", crate="core-h", module="c03_single", features=["hooks", "n4"], timeout=1200, mem_gb=20,
+  decides="a one-hole pattern with a non-capturing hole ($_ / $$_) matches a node iff the hole is not marked named or the node is named, and binds nothing",
+  functions=["ast_grep_core::matcher::pattern::Pattern::match_node_with_env", "ast_grep_core::match_tree::match_node_non_recursive",
+             "ast_grep_core::match_tree::match_leaf_meta_var"],
+  assumes=[ST_TS, ST_MAP], shape="FLAT(1)", bounds="hole named / any symbolic; candidate leaf: 5 kinds + ERROR, named bit, 1-byte text; 5 strictness levels; unwind 8")
+H(prop="C03", name="c03_hole_capture_binds", crate="core-h", module="c03_single", features=["hooks", "n4"], timeout=1200, mem_gb=20, tier="lab",
+  decides="a one-hole pattern with a capturing hole ($A / $$A) matches iff not named-only or the node is named, and binds exactly the candidate (Kani reports spurious pointer failures on the MetaVarEnv write; counterexample does not reproduce)",
+  functions=["ast_grep_core::matcher::pattern::Pattern::match_node_with_env", "ast_grep_core::match_tree::match_leaf_meta_var", "ast_grep_core::meta_var::MetaVarEnv::insert"],
+  assumes=[ST_TS, ST_MAP], shape="FLAT(1)", bounds="hole named / any symbolic; candidate leaf: 5 kinds + ERROR; 5 strictness levels; unwind 8")
+H(prop="C03", name="c03_match_len_terminal", crate="core-h", module="c03_single", features=["hooks", "n4"], timeout=1200, mem_gb=20,
+  decides="one-token patterns: Pattern::get_match_len is Some iff match_node_with_env is Some, and the reported length is the candidate token's own length",
+  functions=["ast_grep_core::matcher::pattern::Pattern::get_match_len", "ast_grep_core::match_tree::match_end_non_recursive",
+             "ast_grep_core::matcher::pattern::Pattern::match_node_with_env"],
+  assumes=[ST_TS], shape="FLAT(1)", bounds="goal token: 5 kinds + ERROR, named bit, 2-byte text; candidate leaf: 5 kinds, 2-byte text; 5 strictness levels; unwind 8")
+for _nm, _pat, _tier in (("c01_prefilter_nested_one_token", "call[ call[T1] ] with a 2-byte text", "quick"),
+                         ("c01_prefilter_nested_two_tokens", "call[ call[T1] T3 ] with texts of lengths 2, 1", "thorough"),
+                         ("c01_prefilter_nested_tokens", "call[ call[T1 T2] T3 ] with texts of lengths 4, 2, 3", "thorough")):
+    H(prop="C01", name=_nm, crate="core-h", module="c01_prefilter", features=["hooks", "n4"], timeout=1800, mem_gb=16, tier=_tier,
+      recursion={"ast_grep_core::matcher::PatternNode::fixed_string_impl": 3},
+      decides="Pattern::fixed_string() of a nested pattern is the longest token whose text the strictness level compares (any token under cst/smart, named tokens only under ast/relaxed -- unnamed pattern tokens can be skipped at any depth --, nothing under signature)",
+      functions=["ast_grep_core::matcher::pattern::Pattern::fixed_string", "ast_grep_core::matcher::pattern::PatternNode::fixed_string_impl"],
+      shape="TREE", bounds=f"pattern {_pat}, symbolic named bits, all 5 strictness levels; unwind 8, recursion of fixed_string_impl 3 (= the nesting depth; CBMC recursion unwinding assertion on)")
 for _k in (1, 2):
     H(prop="C01", name=f"c01_prefilter_internal_k{_k}", crate="core-h", module="c01_prefilter", features=["hooks", "n4"], tier="lab",
       recursion=REC_FLAT, loops=LOOPS_FLAT, timeout=1800, mem_gb=24,
